@@ -114,8 +114,32 @@ func (x *executor) lookup(m *machine, fr *frame, in *ssa.Lookup) {
 	}
 }
 
-func (x *executor) rangeInstr(m *machine, fr *frame, in *ssa.Range) { panic(unsupported("Range")) }
-func (x *executor) nextInstr(m *machine, fr *frame, in *ssa.Next)   { panic(unsupported("Next")) }
+// range over a map: each Next yields either "done" or some key that is present, with its value. Which key, how many
+// iterations and that every key is visited once are NOT modelled (loops over maps get partial-correctness invariants only).
+func (x *executor) rangeInstr(m *machine, fr *frame, in *ssa.Range) {
+	if _, ok := in.X.Type().Underlying().(*types.Map); !ok {
+		panic(unsupported("range over a string"))
+	}
+	v := x.val(m, fr, in.X)
+	fr.env[in] = Val{t: x.c.termOf(v), typ: in.X.Type()}
+	x.note("range over a map yields an arbitrary present key per iteration; completeness and termination of the iteration are not modelled")
+}
+
+func (x *executor) nextInstr(m *machine, fr *frame, in *ssa.Next) {
+	if in.IsString {
+		panic(unsupported("range over a string"))
+	}
+	c := x.c
+	rng := in.Iter.(*ssa.Range)
+	mt := rng.X.Type().Underlying().(*types.Map)
+	mv := fr.env[rng]
+	ok := c.d.fresh("mapnext", "Bool")
+	k := c.d.fresh("mapkey", c.sortOf(mt.Key()))
+	m.st.assume(x.valueWF(k, mt.Key()))
+	val, has := x.mapGet(m.st, Val{t: mv.t, typ: rng.X.Type()}, k)
+	m.st.assume(mkImp(ok, has))
+	fr.env[in] = Val{tup: []Val{{t: ok, typ: types.Typ[types.Bool]}, {t: k, typ: mt.Key()}, {t: val, typ: mt.Elem()}}}
+}
 func (x *executor) mapLen(st *state, v Val) *T                      { panic(unsupported("len(map)")) }
 
 // mapLookupVal: m[k] in a contract (zero value where absent)
